@@ -1293,6 +1293,19 @@ def run_effects(prog) -> Tuple[List[str], int]:
             if float(c) != want.get(rid, 0.0):
                 out.append(f"`{what}`: after model.objective = {want} the reaction {rid} reports the objective coefficient {c!r} (the writers store that number)")
         n += 1
+        # an objective that is no weighted sum of net fluxes (the total-flux objective of pFBA: every direction
+        # variable with weight one; one direction variable alone): no reaction has an objective coefficient then -
+        # a number reported here is written by model_to_dict and restored by the context as a (c, -c) pair
+        solver = object.__getattribute__(m, "__dict__")["_solver"]
+        r1, r2 = h["R1"], h["R2"]
+        for label, terms in (("the total-flux objective (forward + reverse of every reaction)", {v: 1.0 for r in m.reactions for v in (r.forward_variable, r.reverse_variable)}),
+                             ("2 * forward variable of R1 alone", {r1.forward_variable: 2.0}), ("forward - 0.5 * reverse of R2", {r2.forward_variable: 1.0, r2.reverse_variable: -0.5})):
+            solver.objective = OObj(Lin(dict(terms)), "min")
+            got = _fn(w, "cobra.util.solver", "linear_reaction_coefficients", m)
+            if got:
+                shown = {object.__getattribute__(r, "__dict__")["_id"]: float(v) for r, v in got.items()}
+                out.append(f"`{what}`: with {label} as the solver objective linear_reaction_coefficients(model) reports {shown}: no reaction has these terms as coefficient x (forward - reverse)")
+            n += 1
     except EvalRaise as exc:
         out.append(f"`{what}`: reading the objective coefficients of the toy model raises {exc.exc_type}")
     except Unknown as exc:
